@@ -458,7 +458,7 @@ type destRec struct {
 	once  sync.Once
 	sni   []string
 	hosts []string // HTTP Host headers
-	n     int // number of connects / datagrams (desc only)
+	n     int      // number of connects / datagrams (desc only)
 }
 
 func newRec() *destRec { return &destRec{seen: map[string]bool{}, first: make(chan struct{})} }
@@ -986,11 +986,11 @@ func runNetOnce(id string, ns netSpec) (netResult, bool) {
 			"exchange_err": exchErr, "connects": rec.n}, starved: starved}, true
 }
 
-func name(h string) ep              { return ep{host: h} }
-func namep(h, p string) ep          { return ep{host: h, port: sp(p)} }
-func v6(h string, br bool) ep       { return ep{v6: true, host: h, br: br} }
-func v6p(h, p string) ep            { return ep{v6: true, host: h, br: true, port: sp(p)} }
-func pe(e ep) *ep                   { return &e }
+func name(h string) ep        { return ep{host: h} }
+func namep(h, p string) ep    { return ep{host: h, port: sp(p)} }
+func v6(h string, br bool) ep { return ep{v6: true, host: h, br: br} }
+func v6p(h, p string) ep      { return ep{v6: true, host: h, br: true, port: sp(p)} }
+func pe(e ep) *ep             { return &e }
 func mean(s string, e ep, path string, d *ep) uin {
 	return uin{scheme: s, e: e, path: path, dial: d}
 }
